@@ -1081,7 +1081,7 @@ impl Engine for DeriveSim {
     fn runs(&self, tier: Tier) -> u64 {
         match tier {
             Tier::Quick => 60_000,
-            Tier::Thorough => 8_000_000,
+            Tier::Thorough => 24_000_000,
         }
     }
     fn heartbeat(&self) -> u64 {
